@@ -1176,4 +1176,39 @@ example : (RObj.mk (.member (.single ⟨[1, -1, -1/2], 1, 1/2⟩)) .mol [] [0, 1
       feasTol [[0, 4, 3]] = .ok [[2, 2, 2]] := by
   constructor <;> decide +kernel
 
+/-! ## `correct_atomic_balance` keeps the reaction on a per-reactant basis -/
+
+/-- Whatever the solver returns for the coefficients that are not held constant (`x`, any constants):
+after `correct_atomic_balance` the reactant's coefficient is −1 again, so the reaction still consumes
+exactly `X · feed` of its reactant (`consumes_X`, `call_consumes_X` apply to the result), … -/
+theorem rebalance_per_reactant (rx rx' : Rxn) (basis : Basis) (mw x : Vec)
+    (h : rx.rebalance basis mw x = .ok rx') :
+    rx'.nu.getD rx'.r 0 = -1 ∧ rx'.r = rx.r ∧ rx'.X = rx.X := by
+  unfold Rxn.rebalance at h
+  exact ⟨make_reactant _ _ _ _ h, (make_ok _ _ _ _ h).2.1, (make_ok _ _ _ _ h).2.2⟩
+
+theorem rebalance_consumes_X (rx rx' : Rxn) (x n : Vec) (h : rx.rebalance .mol [] x = .ok rx')
+    (hfit : x.length = n.length) : (rx'.react n).getD rx.r 0 = n.getD rx.r 0 * (1 - rx.X) := by
+  unfold Rxn.rebalance at h
+  exact consumes_X x rx.r rx.X rx' n h hfit
+
+/-- … and a solution that balances a row (an element) stays balanced through the write-back and the
+rescaling, on the molar basis and — per unit mass — on the weight basis. -/
+theorem rebalance_balanced (a : Vec) (rx rx' : Rxn) (x : Vec) (h : rx.rebalance .mol [] x = .ok rx')
+    (hb : dot a x = 0) : dot a rx'.nu = 0 := by
+  unfold Rxn.rebalance at h
+  exact rescale_balanced a x rx.r rx'.nu (make_ok _ _ _ _ h).1 hb
+
+theorem rebalance_balanced_wt (a mw : Vec) (rx rx' : Rxn) (x : Vec) (h : rx.rebalance .wt mw x = .ok rx')
+    (hmw : ∀ y ∈ mw, y ≠ 0) (hl : x.length = mw.length) (hb : dot a x = 0) :
+    dot (hdiv a mw) rx'.nu = 0 := by
+  unfold Rxn.rebalance at h
+  refine rescale_balanced (hdiv a mw) (hmul x mw) rx.r rx'.nu (make_ok _ _ _ _ h).1 ?_
+  rw [dot_hdiv_hmul a x mw hmw hl, hb]
+
+/-- non-vacuity: CH4 + O2 → H2O + CO2 (reactant O2) balanced to x = (−1, −2, 2, 1) over
+(CH4, O2, H2O, CO2): the result is per mole of O2 -/
+example : (Rxn.mk [-1, -1, 1, 1] 1 (2/5)).rebalance .mol [] [-1, -2, 2, 1]
+    = .ok ⟨[-1/2, -1, 1, 1/2], 1, 2/5⟩ := by decide +kernel
+
 end ThermoVerif.Props.C05
